@@ -55,8 +55,10 @@ class C08(Prop):
                   "contains(y) <-> super(x) = y; no duplicates; forest; destructed objects in no registry, no inventory, "
                   "without environment) is preserved by every task for all hook oracles, all fuels, all histories; no task "
                   "reaches a NULL / dangling dereference (no_crash) or an endless super walk (no_hang); objects(filter) lists "
-                  "only live objects, in obj_list order (objects_filter_sound); the model is tied to the source by the "
-                  "regenerated Pearson hash table / hash sizes / prefix lengths / comparison operators, by 17 tie obligations "
+                  "only live objects, in obj_list order (objects_filter_sound); the name table refines a finite map (NV/C08/Refine.lean: "
+                  "find = read, enter = insert / refused, unlink = delete); load_object's inherit detour with its re-lookup and "
+                  "user_parser's loop with actions returning 0 are inside the interpreter the theorems quantify over; the model is tied to the source by the "
+                  "regenerated Pearson hash table / hash sizes / prefix lengths / comparison operators, by 18 tie obligations "
                   "over regenerated statement orders and conditions, and by running the real driver "
                   "and the model on the same generated histories with a walker over the real structures after every step; "
                   "the Lean specification oracle judges every implementation trace")
@@ -66,7 +68,11 @@ class C08(Prop):
                   "top theorem judge(model trace) = [] is not (its semantic clauses are the invariant theorems); "
                   "destructed_never_called is about the model's apply - the C apply() does not refuse destructed objects, "
                   "each call site tests first (checked by the oracle clause destructed-called on every logged callback)")
-    rule = ("[extend round: adds objects(filter) issued from the top level and from hooks with filters that destruct the "
+    rule = ("[round 2: adds loads / clones / string moves of objects that INHERIT a not yet loaded program whose create() - and "
+            "the create() of the object itself - re-enters the load (loads, clones, moves to, destructs the objects being "
+            "loaded, errors, catch; inherit depth limit 8); several objects offering one verb whose actions return 0 after "
+            "destructing / moving the command giver or themselves or calling remove_action; load_object() result reported "
+            "beside find_object()] [extend round: adds objects(filter) issued from the top level and from hooks with filters that destruct the "
             "object asked about / others / the caller, clone, move, nest, raise errors; catch() around destructs, moves, "
             "loads and error() inside every hook kind; oracle self-test of 94 traces] [audit round: adds move_object(string) / first_inventory(string) with loads that run create() hooks, present() with "
             "id() hooks, add_action / command(), the backend tick (heart_beat() of every enabled object incl. the last one "
@@ -78,8 +84,8 @@ class C08(Prop):
             "and (every 40th case) 100..260 objects on a 16 bucket name table; walker after every step, snapshot + LPC probe "
             "after every step (small) or periodically (large); a case is non-trivial when its trace has >= 2 lines; "
             "distinct = distinct canonical implementation trace")
-    not_covered = ["add_action flags (V_SHORT / V_NOSPACE), function-pointer actions, action functions returning 0 (illegal_sentence_action), remove_action, notify_fail",
-                   "virtual objects (master compile_object), the master / simul_efun reload path of destruct_object, swapping, sockets (shadows are compiled out: NO_SHADOWS)",
+    not_covered = ["add_action flags (V_SHORT / V_NOSPACE), function-pointer actions, carry-over arguments, notify_fail",
+                   "virtual objects (master compile_object), the master / simul_efun reload path of destruct_object, valid_object denial, pre_text loads, swapping, sockets (shadows are compiled out: NO_SHADOWS)",
                    "objects(filter): the function-pointer form, O_HIDDEN / valid_hide, populations above 1000 objects (extend_string branch); completeness (every object live before and after is listed) is an oracle clause, not a theorem",
                    "present() 1-argument / object-argument forms, deep_inventory, say / tell_room / shout walks (no listener objects), reset() / clean_up() walk of look_for_objects_to_swap",
                    "the string-level top theorem judge(model trace) = [] is not proved; its semantic clauses are (reachable_inv, no_crash, init_only_adjacent, destructed_never_*)",
@@ -838,6 +844,7 @@ class C08(Prop):
             ("frame-mismatch", born + ["ctb o1", "deb o3", "r ct o1 0"]),
             ("ok", born + ["r ra o3 va 1", "r ra o3 va 0", "r ra o9 va !gone"]),
             ("destructed-visible", dead3 + ["r ra o3 va 0"]),
+            ("ok", born + ["new o4 c08/b1", "he o4 create", "mvsb o2 c08/b1", "mvb o2 o3", "r mv o2 o3 ok", "r mvs o2 c08/b1 ok ?", "mvb o4 o2", "err *Can't move object inside itself."]),
             ("walker", ["W ot-destructed o2"]),
             ("crash", ["crash signal 11"]),
             ("memory-error", ["sanitizer ERROR: AddressSanitizer: heap-use-after-free"]),
